@@ -93,6 +93,7 @@ type caseT struct {
 	Evs  []evT    `json:"events"`
 	Om   [][]outT `json:"outcomes"` // [event][destination]
 	Hist *histT   `json:"-"`        // set when this case is one segment of a retune history
+	Der  *derivT  `json:"-"`        // set when this case is one logging step of a writer-derivation history (derive.go)
 }
 
 // retuneT: at run time, the exported Level field of one FilteredLevelWriter of the already
@@ -309,6 +310,65 @@ var stderrOff int64
 // runCase runs the case on the real code; returns the per-event traces.
 func runCase(c *Ctx, cs *caseT) [][]actT { return runCaseHooked(c, cs, nil) }
 
+// installReports routes the write-error reports of the logging calls that follow into rt.trace (ErrorHandler set) or
+// to the stderr capture file (ErrorHandler nil); the returned function restores the globals.
+func installReports(rt *runtimeT, handler bool) func() {
+	oldH := zerolog.ErrorHandler
+	oldStderr := os.Stderr
+	if handler {
+		zerolog.ErrorHandler = func(err error) {
+			cl, id := classify(err)
+			rt.trace = append(rt.trace, actT{Kind: "handler", Err: cl, ErrID: id})
+		}
+	} else {
+		zerolog.ErrorHandler = nil
+		os.Stderr = stderrFile
+	}
+	return func() { zerolog.ErrorHandler = oldH; os.Stderr = oldStderr }
+}
+
+// logEvent performs one logging call on l and returns the ordered trace of that call (destination calls, reports,
+// done / panic).  rt.k and rt.om say what the destinations answer.
+func logEvent(rt *runtimeT, l *zerolog.Logger, e evT, handler bool) []actT {
+	rt.trace = nil
+	panicked, pv := emitEvent(l, e)
+	tr := rt.trace
+	if !handler {
+		// what arrived on stderr during this call (order relative to the other actions is
+		// not observable; it is placed after the calls, where msg writes it)
+		st, _ := stderrFile.Stat()
+		if st.Size() > stderrOff {
+			b := make([]byte, st.Size()-stderrOff)
+			stderrFile.ReadAt(b, stderrOff)
+			stderrOff = st.Size()
+			for _, line := range strings.Split(strings.TrimSuffix(string(b), "\n"), "\n") {
+				a := actT{Kind: "stderr", Err: "unknown", ErrID: -2}
+				const stderrPrefix = "zerolog: could not write event: "
+				if id, ok := errByText[strings.TrimPrefix(line, stderrPrefix)]; ok && strings.HasPrefix(line, stderrPrefix) {
+					// the report is the text of exactly one error value of the table
+					a.Err, a.ErrID = fmt.Sprintf("dest:%d", id), id
+				} else if strings.HasSuffix(line, ": "+io.ErrShortWrite.Error()) {
+					a.Err, a.ErrID = "short", -1
+				} else if i := strings.LastIndex(line, "verif-dest-error-"); i >= 0 {
+					var id int
+					if _, err := fmt.Sscanf(line[i:], "verif-dest-error-%d", &id); err == nil {
+						a.Err, a.ErrID = fmt.Sprintf("dest:%d", id), id
+					}
+				}
+				tr = append(tr, a)
+			}
+		}
+	}
+	if panicked {
+		if s, ok := pv.(string); ok && e.Panic && s == e.Msg {
+			tr = append(tr, actT{Kind: "done"})
+		} else {
+			tr = append(tr, actT{Kind: "panic", Err: fmt.Sprint(pv)})
+		}
+	}
+	return tr
+}
+
 // runCaseHooked: before(k, filters) runs before logging call k and may assign the Level field of
 // the FilteredLevelWriters the writer was constructed with.
 func runCaseHooked(c *Ctx, cs *caseT, before func(k int, filters []filterHandle)) [][]actT {
@@ -319,18 +379,7 @@ func runCaseHooked(c *Ctx, cs *caseT, before func(k int, filters []filterHandle)
 	var filters []filterHandle
 	w := buildWriter(cs.Cfg, rt, &filters)
 	l := zerolog.New(w).Level(zerolog.Level(-128))
-	oldH := zerolog.ErrorHandler
-	oldStderr := os.Stderr
-	if cs.Cfg.Handler {
-		zerolog.ErrorHandler = func(err error) {
-			cl, id := classify(err)
-			rt.trace = append(rt.trace, actT{Kind: "handler", Err: cl, ErrID: id})
-		}
-	} else {
-		zerolog.ErrorHandler = nil
-		os.Stderr = stderrFile
-	}
-	defer func() { zerolog.ErrorHandler = oldH; os.Stderr = oldStderr }()
+	defer installReports(rt, cs.Cfg.Handler)()
 	out := make([][]actT, len(cs.Evs))
 	for k, e := range cs.Evs {
 		rt.k = k
@@ -338,42 +387,7 @@ func runCaseHooked(c *Ctx, cs *caseT, before func(k int, filters []filterHandle)
 		if before != nil {
 			before(k, filters)
 		}
-		panicked, pv := emitEvent(&l, e)
-		tr := rt.trace
-		if !cs.Cfg.Handler {
-			// what arrived on stderr during this call (order relative to the other actions is
-			// not observable; it is placed after the calls, where msg writes it)
-			st, _ := stderrFile.Stat()
-			if st.Size() > stderrOff {
-				b := make([]byte, st.Size()-stderrOff)
-				stderrFile.ReadAt(b, stderrOff)
-				stderrOff = st.Size()
-				for _, line := range strings.Split(strings.TrimSuffix(string(b), "\n"), "\n") {
-					a := actT{Kind: "stderr", Err: "unknown", ErrID: -2}
-					const stderrPrefix = "zerolog: could not write event: "
-					if id, ok := errByText[strings.TrimPrefix(line, stderrPrefix)]; ok && strings.HasPrefix(line, stderrPrefix) {
-						// the report is the text of exactly one error value of the table
-						a.Err, a.ErrID = fmt.Sprintf("dest:%d", id), id
-					} else if strings.HasSuffix(line, ": "+io.ErrShortWrite.Error()) {
-						a.Err, a.ErrID = "short", -1
-					} else if i := strings.LastIndex(line, "verif-dest-error-"); i >= 0 {
-						var id int
-						if _, err := fmt.Sscanf(line[i:], "verif-dest-error-%d", &id); err == nil {
-							a.Err, a.ErrID = fmt.Sprintf("dest:%d", id), id
-						}
-					}
-					tr = append(tr, a)
-				}
-			}
-		}
-		if panicked {
-			if s, ok := pv.(string); ok && e.Panic && s == e.Msg {
-				tr = append(tr, actT{Kind: "done"})
-			} else {
-				tr = append(tr, actT{Kind: "panic", Err: fmt.Sprint(pv)})
-			}
-		}
-		out[k] = tr
+		out[k] = logEvent(rt, &l, e, cs.Cfg.Handler)
 	}
 	return out
 }
@@ -502,6 +516,10 @@ func caseJSON(cs *caseT, obs [][]actT) map[string]interface{} {
 	m := map[string]interface{}{"cfg": cs.Cfg, "events": cs.Evs, "reference_bytes": refs, "outcomes": cs.Om, "observed": obs}
 	if ev := errValueNotes(cs.Om); len(ev) > 0 {
 		m["error_values"] = ev // outcome {err, e}: the destination returns (0, this value); reports are matched by identity
+	}
+	if cs.Der != nil {
+		m["derivation"] = cs.Der
+		m["note"] = "writers[i] = zerolog.MultiLevelWriter(args...) where an argument is a destination of the derivation or the RESULT of an earlier MultiLevelWriter call (optionally wrapped); the history builds the writers and logs through them, all of them staying alive; this case is the history step derivation.this_case_is_history_step: events logged through the writer named there. cfg above = the destinations that writer was built from, flattened in argument order (cfg destination i = derivation destination derivation_destination_of_cfg_destination[i]); an observed call on a destination the writer was not built from is shown with an index beyond cfg's destinations"
 	}
 	if cs.Hist != nil {
 		m["history"] = cs.Hist
@@ -741,7 +759,7 @@ func genCase(r *Rng) *caseT {
 // ---------------------------------------------------------------- driver
 
 func runC14(c *Ctx) {
-	c.Res.Rule = fmt.Sprintf("a case is (writer configuration: wrappers around MultiLevelWriter or a single destination, per destination a wrapper chain of SyncWriter/FilteredLevelWriter/LevelWriterAdapter over an io.Writer or LevelWriter fake; events with level/message/field; outcome matrix ok|error value|short write per event and destination; the error value of an outcome is one of %d kinds - opaque errors, the standard library sentinels themselves (os.ErrClosed, io.EOF, io.ErrClosedPipe, context.Canceled, net.ErrClosed, syscall errnos, ...), values wrapping them (%%w, *fs.PathError, *os.SyscallError, *net.OpError, multi-errors), Timeout/Temporary answers, an error whose Is matches every target, an empty text - directed sweep of every kind in sentinel and wrapped form through five destination positions with ErrorHandler and with the stderr fallback, the failing events also entering through each of the eleven entry points that end in the write (Msg, Msgf, Send, MsgFunc, Log, Logger.Write, Print, Printf, Println, Err(nil), Err(err)), and mixed into every other stream by error id; entry-point sweep: every entry point x {ok, error, short write, error behind a short write} x three writer shapes x ErrorHandler/stderr); observed = per logging call the ordered trace of destination calls (entry, level, bytes), ErrorHandler/stderr reports (error identity) and done. Bounded-exhaustive: all 3-outcome matrices for <=3 destinations x <=2 events (thorough: <=3 events) over 4 fixed kind assignments, the full filter-level x event-level grid; then seeded random (<=5 destinations, <=6 events, chains <=3); retune histories: one writer constructed once and used over 2-4 segments, the exported Level field of its FilteredLevelWriters assigned between segments (directed grid: every ordered pair old/new level x six filter positions x events at all levels before and after; seeded random), each segment shipped as one case under the levels then in force. non-trivial = at least one reached destination fails and at least two destinations are configured; distinct by case text", len(errKinds))
+	c.Res.Rule = fmt.Sprintf("a case is (writer configuration: wrappers around MultiLevelWriter or a single destination, per destination a wrapper chain of SyncWriter/FilteredLevelWriter/LevelWriterAdapter over an io.Writer or LevelWriter fake; events with level/message/field; outcome matrix ok|error value|short write per event and destination; the error value of an outcome is one of %d kinds - opaque errors, the standard library sentinels themselves (os.ErrClosed, io.EOF, io.ErrClosedPipe, context.Canceled, net.ErrClosed, syscall errnos, ...), values wrapping them (%%w, *fs.PathError, *os.SyscallError, *net.OpError, multi-errors), Timeout/Temporary answers, an error whose Is matches every target, an empty text - directed sweep of every kind in sentinel and wrapped form through five destination positions with ErrorHandler and with the stderr fallback, the failing events also entering through each of the eleven entry points that end in the write (Msg, Msgf, Send, MsgFunc, Log, Logger.Write, Print, Printf, Println, Err(nil), Err(err)), and mixed into every other stream by error id; entry-point sweep: every entry point x {ok, error, short write, error behind a short write} x three writer shapes x ErrorHandler/stderr); observed = per logging call the ordered trace of destination calls (entry, level, bytes), ErrorHandler/stderr reports (error identity) and done. Bounded-exhaustive: all 3-outcome matrices for <=3 destinations x <=2 events (thorough: <=3 events) over 4 fixed kind assignments, the full filter-level x event-level grid; then seeded random (<=5 destinations, <=6 events, chains <=3); retune histories: one writer constructed once and used over 2-4 segments, the exported Level field of its FilteredLevelWriters assigned between segments (directed grid: every ordered pair old/new level x six filter positions x events at all levels before and after; seeded random), each segment shipped as one case under the levels then in force; writer derivations: writers built by MultiLevelWriter from destinations and from the results of earlier MultiLevelWriter calls (directed grid: a base fan-out of 1-4 destinations, extended 0-2 times by 1-2 destinations, then 2-3 sibling writers derived from the last one and one more from the base, the earlier writer as first / last / middle argument, all writers alive and logged through oldest-first / newest-first / as soon as built and again at the end; seeded random derivations of 2-7 writers, earlier writers also behind SyncWriter / FilteredLevelWriter), every destination recorded separately, each logging step shipped as one case over the flattened destinations of its writer. non-trivial = at least one reached destination fails and at least two destinations are configured; distinct by case text", len(errKinds))
 	var err error
 	stderrFile, err = os.Create(c.Out + "/stderr_capture.txt")
 	if err != nil {
@@ -1055,6 +1073,48 @@ func runC14(c *Ctx) {
 		retune++
 	}
 	c.Res.ExtraCoverage["retune_histories"] = retune
+
+	// 5b. derivations of writers (derive.go): MultiLevelWriter over results of earlier MultiLevelWriter calls -
+	// extended once or several times, nested, several writers derived from the same one and all alive - every
+	// destination recorded separately; each logging step is judged by the derivation monitor, by the general
+	// monitors and by the model over the flattened destinations of its writer.
+	derivSteps := 0
+	emitDeriv := func(d *derivT, group string) {
+		trs := runDeriv(d)
+		for s, op := range d.Ops {
+			if op.Op != "log" {
+				continue
+			}
+			cs, obs, misrouted := derivStepCase(d, s, trs[s])
+			monitorDerivStep(c, d, s, trs[s], cs, obs)
+			failing := false
+			if !misrouted {
+				failing = monitorCase(c, cs, obs)
+			}
+			term := caseTerm(cs, obs)
+			j := caseJSON(cs, obs)
+			c.AddCase(term, j)
+			c.Count(term, failing && len(cs.Cfg.Dests) >= 2)
+			c.Hist("group", group)
+			c.Hist("destinations", fmt.Sprint(len(cs.Cfg.Dests)))
+			c.Hist("events", fmt.Sprint(len(cs.Evs)))
+			derivSteps++
+		}
+		c.Hist("derivation_writers", fmt.Sprint(len(d.Nodes)))
+	}
+	grid5b := derivGrid()
+	for _, d := range grid5b {
+		emitDeriv(d, "derivation-grid")
+	}
+	nder := 150
+	if c.Thorough() {
+		nder = 3000
+	}
+	for i := 0; i < nder; i++ {
+		emitDeriv(genDeriv(c.R.Fork()), "derivation-random")
+	}
+	c.Res.ExtraCoverage["derivation_histories"] = len(grid5b) + nder
+	c.Res.ExtraCoverage["derivation_logging_steps"] = derivSteps
 
 	// 6. the event is recycled also when the write fails (allocation monitor)
 	monitorRecycling(c)
